@@ -40,8 +40,9 @@ ASSUMPTIONS = [
     "Intel-HEX / S-record readers are written from the format definitions and self-tested on the published examples and on a HEX/BIN pair made by another tool",
 ]
 FLOORS = {
-    "valid": 0.25, "invalid:overlap": 0.04, "invalid:sticks_out": 0.03, "depth>=2": 0.30, "depth>=3": 0.08, "touching": 0.08,
-    "aligned": 0.15, "gap": 0.15, "append": 0.08, "explicit_size": 0.10, "part:formats": 0.10, "base:high": 0.02, "cross64k": 0.01,
+    "valid": 0.25, "invalid:overlap": 0.05, "invalid:sticks_out": 0.05, "depth>=2": 0.30, "depth>=3": 0.10, "touching": 0.08,
+    "aligned": 0.20, "gap": 0.20, "append": 0.10, "explicit_size": 0.20, "part:formats": 0.15, "part:merge": 0.05,
+    "base:high": 0.015, "cross64k": 0.01, "holes": 0.02, "bin_texty": 0.02, "merge:default_offset": 0.01, "merge:multi_segment": 0.01,
 }
 
 _WORK = {"dir": None}
@@ -106,31 +107,53 @@ def _construct(tree, bfs, make, add, append, set_size):
     return root, order
 
 
+# strategies are built once: constructing them inside a composite costs more than drawing from them
+_S = {
+    "al": st.sampled_from(ALIGNMENTS), "data": _data(), "pat": _pattern(),
+    "size_mode_valid": st.sampled_from(["derived", "derived", "derived", "exact", "plus"]),
+    "size_mode": st.sampled_from(["derived", "derived", "derived", "exact", "plus", "minus", "minus"]),
+    "size_how": st.sampled_from(["ctor", "ctor", "ctor", "setter"]),
+    "nk_top": st.integers(0, 4), "nk": st.integers(0, 3),
+    "how": st.sampled_from(["add", "add", "add", "append"]),
+    "gap_valid": st.one_of(st.sampled_from([0, 0, 0, 1, 2, 3, 7]), st.integers(0, 40)),
+    "gap": st.one_of(st.sampled_from([0, 0, 0, 1, -1, 2, -2, 3, -3]), st.integers(-20, 40)),
+    "abs": st.integers(0, 300), "coin5": st.integers(0, 4), "coin8": st.integers(0, 7),
+    "plus": st.one_of(st.sampled_from([1, 2, 3]), st.integers(1, 40)), "minus": st.sampled_from([1, 1, 2, 3, 8]),
+    "size": st.integers(1, 40),
+}
+_NODE_CACHE: dict = {}
+
+
+def _node(depth: int, valid: bool, top: bool = True):
+    key = (depth, valid, top)
+    if key not in _NODE_CACHE:
+        _NODE_CACHE[key] = _node_impl(depth, valid, top)
+    return _NODE_CACHE[key]
+
+
 @st.composite
-def _node(draw, depth: int, valid: bool, top: bool = True):
-    al = draw(st.sampled_from(ALIGNMENTS))
-    data = draw(_data())
-    pat = draw(_pattern())
-    size_mode = draw(st.sampled_from(["derived", "derived", "derived", "exact", "plus"] + ([] if valid else ["minus", "minus"])))
-    size_how = draw(st.sampled_from(["ctor", "ctor", "ctor", "setter"]))
+def _node_impl(draw, depth: int, valid: bool, top: bool):
+    al = draw(_S["al"])
+    data = draw(_S["data"])
+    pat = draw(_S["pat"])
+    size_mode = draw(_S["size_mode_valid" if valid else "size_mode"])
+    size_how = draw(_S["size_how"])
     node = {"off": 0, "size": 0, "size_how": size_how, "data": data, "pat": pat, "al": al, "how": "add", "kids": []}
-    nk = draw(st.integers(0, 4 if top else 3)) if depth > 1 else 0
+    nk = draw(_S["nk_top" if top else "nk"]) if depth > 1 else 0
     model = P.Node(0, 0, data, pat, al)
     cursor = 0
     for _ in range(nk):
         kid = draw(_node(depth - 1, valid, False))
-        how = draw(st.sampled_from(["add", "add", "add", "append"]))
+        how = draw(_S["how"])
         if valid and size_mode != "derived" and size_how == "ctor":
             how = "add"  # appending to a fixed-size parent always protrudes
         kref, _ = ref_build(kid, False)
         if valid:
-            gap = draw(st.one_of(st.sampled_from([0, 0, 0, 1, 2, 3, 7]), st.integers(0, 40)))
-            off = cursor + gap
-        elif draw(st.integers(0, 4)) == 0:
-            off = draw(st.integers(0, 300))
+            off = cursor + draw(_S["gap_valid"])
+        elif draw(_S["coin5"]) == 0:
+            off = draw(_S["abs"])
         else:
-            gap = draw(st.one_of(st.sampled_from([0, 0, 0, 1, -1, 2, -2, 3, -3]), st.integers(-20, 40)))
-            off = max(0, cursor + gap)
+            off = max(0, cursor + draw(_S["gap"]))
         kid["off"], kid["how"] = off, how
         kref.off = off
         (model.append if how == "append" else model.add)(kref)
@@ -141,12 +164,12 @@ def _node(draw, depth: int, valid: bool, top: bool = True):
     if size_mode == "exact":
         node["size"] = derived
     elif size_mode == "plus":
-        node["size"] = derived + draw(st.one_of(st.sampled_from([1, 2, 3]), st.integers(1, 40)))
+        node["size"] = derived + draw(_S["plus"])
     elif size_mode == "minus":
-        node["size"] = max(lo, derived - draw(st.sampled_from([1, 1, 2, 3, 8])), 0)
-    if derived == 0 and not node["size"] and ((valid and top) or draw(st.integers(0, 7)) != 0):
+        node["size"] = max(lo, derived - draw(_S["minus"]), 0)
+    if derived == 0 and not node["size"] and ((valid and top) or draw(_S["coin8"]) != 0):
         # an empty image cannot be saved at all; empty sub-images are kept rare (validation says nothing about them)
-        node["size"] = draw(st.integers(1, 40))
+        node["size"] = draw(_S["size"])
     return node
 
 
@@ -335,6 +358,15 @@ def run_formats(case, o: Oracle) -> None:
     want_mem = {base + i: want[i] for i in range(n) if mask[i]}
     if len(want_mem) < n:
         o.label("holes")
+    for nd in nodes[1:]:
+        up, stated = nd.parent, False
+        while up is not None:
+            stated = stated or up.pat is not None or bool(up.data)
+            up = up.parent
+        if nd.pat is None and stated and not all(nd.defined()):
+            o.label("patternless_over_stated")  # export() puts zeros where a parent states something else
+        if nd.pat is not None and nd.length() == 0:
+            o.label("empty_pattern_node")
 
     img = None
     with o.spsdk("build"):
@@ -409,7 +441,152 @@ def run_formats(case, o: Oracle) -> None:
             if got != bytes(loaded_want):
                 got_mem = {lo + i: b for i, b in enumerate(got)}
                 o.fail(sub, "loaded_bytes", _diff_mem({a: got_mem[a] for a in file_mem if a in got_mem}, file_mem) or "bytes between the stated ranges differ from the loader's pattern")
+                continue
             back.validate()
+            # "convert": the loaded image written in the other two formats still holds the same bytes at the same addresses
+            other, oext, oreader = ("S19", ".s19", P.read_srec) if fmt == "HEX" else ("HEX", ".hex", P.read_ihex)
+            back.save_binary_image(stem + "-conv" + oext, other)
+            with open(stem + "-conv" + oext, "r", encoding="ascii", newline="") as f:
+                try:
+                    mem2, _ = oreader(f.read())
+                    detail = _diff_mem(mem2, file_mem, {lo + i: b for i, b in enumerate(loaded_want)})
+                    o.check("convert", not detail, "%s_to_%s" % (sub, other.lower()), detail)
+                except ValueError as exc:
+                    o.fail("convert", "%s_to_%s:file_malformed" % (sub, other.lower()), str(exc))
+            back.save_binary_image(stem + "-conv.bin", "BIN")
+            with open(stem + "-conv.bin", "rb") as f:
+                o.eq("convert", sub + "_to_bin", f.read(), bytes(loaded_want))
+
+
+# ------------------------------------------------------------------ part 3: merge configuration (nxpimage utils binary-image merge)
+@st.composite
+def _merge_case(draw):
+    al = draw(st.sampled_from([None, 1, 1, 4, 16, 256]))
+    pat = draw(st.one_of(_pattern(), st.integers(1, 255)))
+    size_mode = draw(st.sampled_from(["none", "none", "none", "exact", "plus", "minus"]))
+    regions = []
+    cursor = 0
+    for _ in range(draw(st.integers(1, 5))):
+        if draw(st.booleans()):
+            n = draw(st.integers(1, 40))
+            reg = {"k": "block", "size": n, "pat": draw(_pattern().filter(lambda x: x is not None))}
+            span = n
+        else:
+            fmt = draw(st.sampled_from(["BIN", "BIN", "HEX", "S19"]))
+            segs = []
+            a = 0
+            for i in range(1 if fmt == "BIN" else draw(st.integers(1, 3))):
+                d = draw(st.binary(min_size=1, max_size=40))
+                if fmt == "BIN":
+                    d = b"\xff" + d  # never text: the format sniffer is the business of the formats part
+                segs.append([a, d])
+                a += len(d) + draw(st.integers(1, 20))
+            reg = {"k": "file", "fmt": fmt, "segs": segs}
+            span = segs[-1][0] + len(segs[-1][1])
+        if size_mode == "none" and draw(st.integers(0, 2)) == 0:
+            reg["off"] = None  # "placed after the previous one with defined alignment"
+            cursor = P.align_up(cursor, al or 1)
+        else:
+            gap = draw(st.one_of(st.sampled_from([0, 0, 0, 1, -1, 2, -2, 5]), st.integers(-10, 40)))
+            reg["off"] = max(0, cursor + gap)
+            cursor = reg["off"]
+        cursor += span
+        regions.append(reg)
+    size = 0
+    if size_mode == "exact":
+        size = cursor
+    elif size_mode == "plus":
+        size = cursor + draw(st.integers(1, 40))
+    elif size_mode == "minus":
+        size = max(1, cursor - draw(st.sampled_from([1, 1, 2, 8])))
+    return {"size": size, "pat": pat, "al": al, "regions": regions, "adjust": draw(st.sampled_from([False, False, False, True]))}
+
+
+def run_merge(case, o: Oracle) -> None:
+    from spsdk.utils.images import BinaryImage
+
+    o.label("part:merge")
+    wdir = os.path.join(_WORK["dir"], "merge-%d" % os.getpid())
+    os.makedirs(wdir, exist_ok=True)
+    al, pat = case["al"], case["pat"]
+    cfg = {"name": "merged", "regions": []}
+    if case["size"]:
+        cfg["size"] = case["size"]
+        o.label("explicit_size")
+    if pat is not None:
+        cfg["pattern"] = pat
+    if al is not None:
+        cfg["alignment"] = al
+    root = P.Node(0, case["size"], None, str(pat) if pat is not None else "zeros", al or 1)
+    dont_care = []  # (node, start, end): bytes between the segments of one input file
+    for i, reg in enumerate(case["regions"]):
+        if reg["k"] == "block":
+            entry = {"size": reg["size"], "pattern": reg["pat"]}
+            node = P.Node(reg["off"] or 0, reg["size"], None, reg["pat"], 1)
+            cfg["regions"].append({"binary_block": entry})
+        else:
+            segs = [(a, bytes(d)) for a, d in reg["segs"]]
+            name = "f%d.%s" % (i, reg["fmt"].lower())
+            with open(os.path.join(wdir, name), "wb") as f:
+                f.write(segs[0][1] if reg["fmt"] == "BIN" else (P.write_ihex if reg["fmt"] == "HEX" else P.write_srec)(segs).encode("ascii"))
+            entry = {"path": name}
+            node = P.Node(reg["off"] or 0, 0, None, None, 1)
+            for a, d in segs:
+                node.add(P.Node(a, len(d), d, None, 1))
+            for (a, d), (a2, _) in zip(segs, segs[1:]):
+                dont_care.append((node, a + len(d), a2))
+            cfg["regions"].append({"binary_file": entry})
+            o.label("merge:" + reg["fmt"].lower())
+            if len(segs) > 1:
+                o.label("merge:multi_segment")
+        if reg["off"] is None:
+            o.label("merge:default_offset")
+            root.append(node)
+        else:
+            entry["offset"] = reg["off"]
+            root.add(node)
+    img = None
+    with o.spsdk("merge", "load_from_config"):
+        img = BinaryImage.load_from_config(cfg, search_paths=[wdir])
+        if case["adjust"]:
+            img.update_offsets()
+    if img is None:
+        return
+    if case["adjust"]:
+        o.label("merge:adjust_offsets")
+        m = min(k.off for k in root.kids)
+        for k in root.kids:
+            k.off -= m
+        root.off += m
+    problems = root.problems()
+    o.label("valid" if not problems else "invalid", *("invalid:" + p for p in set(problems)))
+    if root.touching():
+        o.label("touching")
+    if (al or 1) > 1:
+        o.label("aligned")
+    gap = root.has_gap()
+    if gap:
+        o.label("gap")
+    o.label("depth:3" if any(k.kids for k in root.kids) else "depth:2", "depth>=2")
+    o.nontrivial(True)
+    o.key(hashlib.sha256(json.dumps([case["size"], pat, al, case["adjust"], [[r["k"], r["off"], r.get("size"), r.get("pat"), r.get("fmt"), [[a, len(d)] for a, d in r.get("segs", [])]] for r in case["regions"]]]).encode()).hexdigest()[:16])
+    with o.spsdk("length"):
+        o.eq("length", "len", len(img), root.length())
+        o.eq("address", "absolute", img.absolute_address, root.abs())
+    if problems:
+        o.raises("validate", "invalid_accepted:" + sorted(set(problems))[0], img.validate, (Exception,))
+        return
+    with o.spsdk("validate", "valid_rejected"):
+        img.validate()
+    want = bytearray(root.paint())
+    with o.spsdk("export"):
+        got = bytearray(img.export())
+        o.eq("export", "reported_length", len(got), len(img))
+        for node, a, b in dont_care:  # what fills the holes of a sparse input file is not stated anywhere
+            for j in range(node.off + a, node.off + b):
+                if j < len(got) and j < len(want):
+                    got[j] = want[j]
+        o.eq("export", "bytes", bytes(got), bytes(want))
 
 
 # ------------------------------------------------------------------ calibration of the independent readers
@@ -458,4 +635,5 @@ def parts(ctx):
     return [
         HypPart("compose", _compose_case(), run_compose, {"quick": 5000, "thorough": 300000}),
         HypPart("formats", _formats_case(), run_formats, {"quick": 2000, "thorough": 80000}),
+        HypPart("merge", _merge_case(), run_merge, {"quick": 800, "thorough": 40000}),
     ]
